@@ -67,8 +67,11 @@ class Run:
 
     # ---- end ----
     def finish(self) -> int:
-        os.makedirs(os.path.join(VERIF, "replays"), exist_ok=True)
-        os.makedirs(os.path.join(VERIF, "evidence"), exist_ok=True)
+        # VERIF_OUT_DIR redirects evidence/ and replays/ (used when checks run against a seeded scratch tree,
+        # so that the committed evidence of the unchanged tree is not overwritten)
+        out_root = os.environ.get("VERIF_OUT_DIR") or VERIF
+        os.makedirs(os.path.join(out_root, "replays"), exist_ok=True)
+        os.makedirs(os.path.join(out_root, "evidence"), exist_ok=True)
         for cls, h in self.known_hit.items():
             f = self.open_classes[cls]
             print(f"KNOWN-FINDING: property={self.prop} {f['what']} [class {cls}; {h['count']} case(s) this run]")
@@ -78,7 +81,7 @@ class Run:
                 self.extra.setdefault("findings_not_reproduced", []).append(cls)
         lines = []
         for i, v in enumerate(self.violations):
-            path = os.path.join(VERIF, "replays", f"{self.prop}-{self.seed}-{i}.json")
+            path = os.path.join(out_root, "replays", f"{self.prop}-{self.seed}-{i}.json")
             with open(path, "w") as fh:
                 json.dump({"property": self.prop, "what": v["what"], **v["replay"]}, fh, indent=1, default=str)
             tail = "" if v["found_input"] else " no-failing-input-found"
@@ -113,7 +116,7 @@ class Run:
             "coverage": cov, "assumptions": self.assumptions,
             "wall_s": round(time.time() - self.t0, 2), "violations": len(self.violations),
         }
-        with open(os.path.join(VERIF, "evidence", f"{self.prop}.json"), "w") as fh:
+        with open(os.path.join(out_root, "evidence", f"{self.prop}.json"), "w") as fh:
             json.dump(ev, fh, indent=1, default=str)
         for l in lines:
             print(l)
